@@ -11,7 +11,7 @@ import seqmodel as sm
 from common import Toks, ztok, qtok, D
 
 ID = 'C19'
-GEN_SECTIONS = ['GenLabels', 'FP_store_events', 'FP_store_ext', 'FP_get_block', 'FP_event_lib', 'FP_labels']
+GEN_SECTIONS = ['GenLabels', 'GenFile', 'FP_store_events', 'FP_store_ext', 'FP_get_block', 'FP_event_lib', 'FP_labels']
 COQ_TARGETS = ['Props/C19.vo']
 EXTRACT_TARGETS = ['Extract/Ex_labels.vo']
 RUNNER = 'labels'
@@ -24,7 +24,12 @@ MANIFEST = {
             '(a permutation of what was added) with its library payloads; equal sorted lists share one id and '
             'different lists never do; evaluate_labels equals, for every program, init dictionary and evolution mode, '
             'a label-by-label interpreter (sequential for several operations per label, order-independent when each '
-            'block has at most one operation per label); label/extension/trigger tables are re-read from the source. '
+            'block has at most one operation per label); label/extension/trigger tables are re-read from the source; a new '
+            'extension type id never collides with one in use whatever the order of the id list (refuted for the '
+            '`[-1]` variant); file model of the extension sections (rows over the generated column tables, headers, '
+            'id<->name table): writing and re-reading gives back the extension and label rows exactly, trigger rows '
+            'within 0.5 us (exactly on whole us), the same get_block chains and the same evaluate_labels result, for '
+            'every reachable store. '
             'Random label programs (all 21 labels, SET/INC, negative/zero/boolean values, several labels and '
             'triggers/outputs per block, shared/subset/reordered extension sets, mixed with RF/gradient/ADC events) '
             'run on the implementation and on the extracted model: store after every add_block, chains, get_block '
@@ -52,7 +57,10 @@ RULE = ('label programs of 1-14 blocks over a per-program subset of the supporte
         'multisets == what was added; chains have next < id; evaluate_labels (none/adc/label/blocks x init '
         'None/{}/random) == independent per-label interpreter; all again after write+read into a fresh Sequence. '
         'Model: full store after every add_block, decoded chains, label/trigger order, evaluate_labels. '
-        'A pure stream compares the Coq evaluate_labels, the Coq interpreter and the Python oracle on label programs '
+        'A continue stream writes + reads programs whose first use of INC / SET / trigger comes in every order and only '
+        'partly before the reload, then adds blocks with the missing and the present kinds to the RE-READ object, '
+        're-checks everything and writes/reads once more; the Coq file model (write_ext/read_ext) is compared with the '
+        'store the implementation has after read(). A pure stream compares the Coq evaluate_labels, the Coq interpreter and the Python oracle on label programs '
         'directly. distinct = distinct programs; non-trivial = program has labels in >= 2 blocks and a shared or '
         'multi-entry extension list')
 TRUSTED = ['np.argsort tie order among equal reference ids is taken from NumPy (hint validated by the model)',
@@ -154,8 +162,50 @@ def gen_program(rng, tier, multi=False):
     return {'stream': 'multi' if multi else 'prog', 'blocks': blocks, 'init': init}
 
 
+def gen_continue(rng, tier):
+    """programs whose FIRST use of the three extension kinds (INC, SET, trigger/output) comes in every order and
+    only partly before a write + read; blocks added to the re-read object then introduce the missing kinds"""
+    kinds = ['INC', 'SET', 'TRG']
+    rng.shuffle(kinds)
+    n_pre = rng.choice([1, 1, 2, 2, 2, 3])
+    labs = rng.sample(labels(), rng.randint(1, 5))
+    tpool = [gen_trig(rng) for _ in range(rng.randint(1, 3))]
+
+    def block(allowed, must=None):
+        ops, trigs = [], []
+        use = [k for k in allowed if rng.random() < 0.6]
+        if must is not None and must not in use:
+            use.append(must)
+        chosen = rng.sample(labs, min(len(labs), rng.randint(1, 3)))
+        for lab in chosen:
+            ks = [k for k in use if k != 'TRG']
+            if ks:
+                ops.append([rng.choice(ks), lab, gen_value(rng, lab)])
+        if must in ('INC', 'SET') and not any(o[0] == must for o in ops):
+            ops = [o for o in ops if o[1] != chosen[0]] + [[must, chosen[0], gen_value(rng, chosen[0])]]
+        if 'TRG' in use:
+            trigs = [copy.deepcopy(rng.choice(tpool)) for _ in range(rng.choice([1, 1, 2]))]
+        return {'ops': ops, 'trigs': trigs, 'extra': gen_extra(rng), 'order': rng.random()}
+
+    pre = []
+    for j in range(n_pre):
+        pre.append(block(kinds[:j + 1], must=kinds[j]))          # kind j is first used in block j
+        for _ in range(rng.choice([0, 0, 1, 2])):
+            pre.append(block(kinds[:j + 1]))
+    post = []
+    for j in range(n_pre, 3):
+        post.append(block(kinds[:j + 1] if rng.random() < 0.5 else [kinds[j]], must=kinds[j]))   # a kind new to the file
+        for _ in range(rng.choice([0, 1])):
+            post.append(block(kinds[:j + 1]))
+    for _ in range(rng.choice([1, 1, 2, 3])):
+        post.append(block(kinds))
+    ninit = rng.choice([0, 1, 2])
+    init = [[l, rng.randint(-50, 50)] for l in dict.fromkeys(rng.sample(labs + labels()[:3], ninit))]
+    return {'stream': 'continue', 'blocks': pre, 'post': post, 'init': init, 'first_use': kinds, 'kinds_before_reload': n_pre}
+
+
 def one_op(case):
-    return all(len({o[1] for o in b['ops']}) == len(b['ops']) for b in case['blocks'])
+    return all(len({o[1] for o in b['ops']}) == len(b['ops']) for b in case['blocks'] + case.get('post', []))
 
 
 # ---- building real events ----------------------------------------------------------------------------
@@ -473,8 +523,58 @@ def run_program(ctx, case, pending):
         for i in list(s2.block_events.keys()):
             r.get(i)
         check_sequence(ctx, case, s2, expect, 'reread')
+        if case['stream'] != 'int32':
+            # theorem C19_eval_labels_reread: the label program is literally the same after the file, so the
+            # result is the same for EVERY program (also with several operations per label and block)
+            for mode in MODES:
+                a = canon_result(s.on.evaluate_labels(evolution=mode))
+                b = canon_result(s2.evaluate_labels(evolution=mode))
+                if a != b:
+                    if one_op(case):
+                        ctx.fail('C19/reread-evaluate-differs', case, {'mode': mode, 'before': a, 'after': b})
+                    else:
+                        ctx.mismatch('reread-evaluate-differs', case, {'mode': mode, 'before': a, 'after': b})
+                    break
+        if ctx.model_available and case['stream'] != 'int32':
+            pending.append((case, s, r.records[0]['state'], 'filemodel'))
+        post_ok = True
+        if case.get('post'):
+            # continue building on the re-read object: kinds of extensions already in the file and new ones
+            expect2 = list(expect)
+            for spec in case['post']:
+                evs = build_block(spec)
+                rec = r.add(evs)
+                if rec['outcome'][0] != 'ok':
+                    ctx.fail('C19/extended-add_block-raises', case, {'block': len(expect2) + 1, 'error': rec['outcome'][1]})
+                    post_ok = False
+                    break
+                expect2.append(added_multisets(evs))
+            if post_ok:
+                for i in list(s2.block_events.keys()):
+                    r.get(i)
+                post_ok = check_sequence(ctx, case, s2, expect2, 'extended')
+                ctx.count('blocks.added_after_reload', len(case['post']))
         if ctx.model_available and case['stream'] != 'int32':
             pending.append((case, r, init, 'reread'))
+        if case.get('post') and post_ok:
+            s3 = None
+            with tempfile.TemporaryDirectory(prefix='pvC19') as d:
+                fn = os.path.join(d, 'b.seq')
+                try:
+                    s2.write(fn, create_signature=False)
+                    s3 = pp.Sequence(pp.Opts())
+                    s3.read(fn)
+                except Exception as e:  # noqa: BLE001
+                    ctx.fail('C19/extended-write-read-raises', case, {'exception': repr(e)[:300]})
+                    s3 = None
+            if s3 is not None:
+                r3 = Single(seq=s3)
+                r3.loaded()
+                for i in list(s3.block_events.keys()):
+                    r3.get(i)
+                check_sequence(ctx, case, s3, expect2, 'extended-reread')
+                if ctx.model_available:
+                    pending.append((case, r3, init, 'extended-reread'))
     nlab = sum(1 for b in case['blocks'] if b['ops'])
     shared = len({int(v[6]) for v in s.on.block_events.values() if v[6]}) < sum(1 for v in s.on.block_events.values() if v[6])
     multi_entry = any(int(v[2]) != 0 for v in s.on.extensions_library.data.values())
@@ -492,12 +592,62 @@ def run_program(ctx, case, pending):
     ctx.count('ext.max_chain_len.%d' % min(6, max([0] + [len(b['ops']) + len(b['trigs']) for b in case['blocks']])))
 
 
+def compare_filemodel(ctx, case, state2, out):
+    """the extension part of the store after write + read into a fresh Sequence: implementation vs the Coq file
+    model (Model/ExtFile.v: write_ext, read_ext)"""
+    t = Toks(out)
+    try:
+        mc = t.opt(lambda: sm.p_core(t))
+    except Exception as e:  # noqa: BLE001
+        ctx.mismatch('filemodel', case, {'what': 'cannot parse model output: %r / %s' % (e, out[:200])})
+        return
+    if mc is None:
+        ctx.mismatch('filemodel', case, {'what': 'the file model says read() raises, the implementation read the file'})
+        return
+    names = sm.LIBS
+    for name in ('label_set_library', 'label_inc_library', 'extensions_library'):
+        k = names.index(name)
+        d = sm.cmp_lib(name, state2['libs'][k], mc['libs'][k])
+        if d:
+            ctx.mismatch('filemodel', case, {'what': d})
+            return
+    k = names.index('trigger_library')
+    it, mt = state2['libs'][k], mc['libs'][k]
+    bad = None
+    if [i for i, _ in it['data']] != [i for i, _ in mt['data']] or it['next'] != mt['next']:
+        bad = 'trigger_library ids / next id: impl %s %s model %s %s' % ([i for i, _ in it['data']], it['next'],
+                                                                           [i for i, _ in mt['data']], mt['next'])
+    else:
+        for (i, a), (_, b) in zip(it['data'], mt['data']):
+            if len(a) != 4 or len(b) != 4 or a[0] != b[0] or a[1] != b[1] or not close(a[2], b[2]) or not close(a[3], b[3]):
+                bad = 'trigger_library[%d]: impl %s model %s' % (i, a, [float(x) for x in b])
+                break
+        if sorted(v for _, v in it['keymap']) != sorted(v for _, v in mt['keymap']):
+            bad = bad or 'trigger_library keymap ids differ'
+    if bad:
+        ctx.mismatch('filemodel', case, {'what': bad})
+        return
+    for key in ('ext_num', 'ext_str'):
+        if state2[key] != mc[key]:
+            ctx.mismatch('filemodel', case, {'what': '%s after read: impl %s model %s' % (key, state2[key], mc[key])})
+            return
+
+
 def flush(ctx, pending):
     if not pending:
         return
-    outs = ctx.model([s.line(init) for _, s, init, _ in pending])
+    lines = []
+    for _, s, init, stream in pending:
+        if stream == 'filemodel':
+            lines.append('labels.reread ' + s.header + ' ' + ' '.join([str(len(s.ops))] + s.ops))
+        else:
+            lines.append(s.line(init))
+    outs = ctx.model(lines)
     for (case, s, init, stream), o in zip(pending, outs):
-        compare_store(ctx, case, s, init, o, stream)
+        if stream == 'filemodel':
+            compare_filemodel(ctx, case, init, o)
+        else:
+            compare_store(ctx, case, s, init, o, stream)
     del pending[:]
 
 
@@ -623,7 +773,12 @@ def corpus():
         {'ops': [['SET', 'LIN', 5], ['INC', 'LIN', 1]], 'trigs': [], 'extra': [['adc', 16, 1e-5, 0]], 'order': 0.0},
         {'ops': [['INC', 'LIN', 1], ['SET', 'LIN', 5]], 'trigs': [], 'extra': [['adc', 16, 1e-5, 0]], 'order': 0.0}]}
     c3 = {'stream': 'corpus', 'init': [['ECO', 3]], 'blocks': [{'ops': [], 'trigs': [], 'extra': [], 'order': 0.0}]}
-    return [c1, c2, c3]
+    c4 = {'stream': 'corpus', 'init': [], 'first_use': ['INC', 'SET', 'TRG'], 'kinds_before_reload': 2, 'blocks': [
+        {'ops': [['INC', 'LIN', 1]], 'trigs': [], 'extra': [], 'order': 0.0},
+        {'ops': [['SET', 'LIN', 0], ['INC', 'PAR', 1]], 'trigs': [], 'extra': [['adc', 16, 1e-5, 0]], 'order': 0.0}],
+        'post': [{'ops': [], 'trigs': [['trigger', 'physio1', 0, 2000]], 'extra': [], 'order': 0.0},
+                 {'ops': [['SET', 'LIN', 0]], 'trigs': [['output', 'osc0', 0, 100]], 'extra': [], 'order': 0.3}]}
+    return [c1, c2, c3, c4]
 
 
 def run(ctx):
@@ -634,6 +789,20 @@ def run(ctx):
     flush(ctx, pending)
     boundary_stream(ctx)
     int32_stream(ctx, ctx.rng('int32'))
+    # continue building on a re-read sequence (runs before the main stream so that a time-boxed run reaches it)
+    rngc = ctx.rng('continue')
+    for n in range({'quick': 150, 'thorough': 3000}[ctx.tier]):
+        if ctx.out_of_time():
+            break
+        case = gen_continue(rngc, ctx.tier)
+        ctx.count('continue.first_use.' + '-'.join(case['first_use']) + '/%d' % case['kinds_before_reload'])
+        run_program(ctx, case, pending)
+        if n == 3:
+            ctx.sample({'stream': 'continue', 'first_use': case['first_use'], 'pre': [[b['ops'], b['trigs']] for b in case['blocks'][:3]],
+                        'post': [[b['ops'], b['trigs']] for b in case['post'][:3]]})
+        if len(pending) >= 60:
+            flush(ctx, pending)
+    flush(ctx, pending)
     rng = ctx.rng('programs')
     rngm = ctx.rng('multi')
     for n in range(n_prog):
